@@ -114,30 +114,38 @@ def check(ctx, run):
                    what="" if got == want else "a test accepted by %s filter is %s" % ("some" if want else "no", "rejected" if want else "accepted"))
     tf = prog.fn("TestFilter::match")
     run.analysed(tf)
-    for strict, invert, equals, contains in itertools.product((0, 1), repeat=4):
-        ev = Evaluator(prog, tf, env={"strictMatching_": strict, "invertMatching_": invert})
-        ev.calls["operator=="] = lambda *a, equals=equals: equals
-        ev.calls["SimpleString::contains"] = lambda *a, contains=contains: contains
-        try:
-            ev.run_blocks(tf.entry, max_steps=200)
-            got = getattr(ev, "ret", None)
-        except Unknown as u:
-            got = "unknown: %s" % u
-        want = invert ^ (equals if strict else contains)
-        run.ob("R2", "TestFilter::match(strict=%d, invert=%d, equals=%d, contains=%d)" % (strict, invert, equals, contains), tf.site, got == want, witness={"folded": got, "oracle": want})
+    # the filter objects are built through the class's own constructor and modifiers (object_state): whatever private
+    # members hold "strict" and "inverted" is not named here
+    def filter_state(text, strict, invert):
+        return object_state(prog, "TestFilter", ["const char *"], [("str", text)], steps=([("strictMatching", [])] if strict else []) + ([("invertMatching", [])] if invert else []))
     pn = tf.params[0]["name"]
-    okd, wit = True, []
-    for name_, filt, strict, want in (("abc", "b", 0, 1), ("b", "abc", 0, 0), ("abc", "abc", 1, 1), ("abc", "ab", 1, 0), ("ab", "abc", 1, 0), ("", "", 0, 1)):
-        ev = Evaluator(prog, tf, env={"strictMatching_": strict, "invertMatching_": 0, "filter_": ("str", filt), pn: ("str", name_)}, calls=string_hooks())
-        ev.pass_object = True
-        try:
-            ev.run_blocks(tf.entry, max_steps=200)
-            got = getattr(ev, "ret", None)
-        except Unknown as u:
-            got = "unknown: %s" % u
-        wit.append({"name": name_, "filter": filt, "strict": strict, "folded": got, "expected": want})
-        okd = okd and got == want
-    run.ob("R2", "TestFilter::match folded on strings: the candidate is compared with filter_ (the NAME contains the FILTER, not the other way round)", tf.site, okd, witness=wit)
+    try:
+        for strict, invert, equals, contains in itertools.product((0, 1), repeat=4):
+            ev = Evaluator(prog, tf, env=dict(filter_state("flt", strict, invert), **{pn: ("str", "candidate")}))
+            ev.calls["operator=="] = lambda *a, equals=equals: equals
+            ev.calls["SimpleString::contains"] = lambda *a, contains=contains: contains
+            try:
+                ev.run_blocks(tf.entry, max_steps=300)
+                got = getattr(ev, "ret", None)
+            except Unknown as u:
+                got = "unknown: %s" % u
+            want = invert ^ (equals if strict else contains)
+            run.ob("R2", "TestFilter::match(strict=%d, invert=%d, equals=%d, contains=%d)" % (strict, invert, equals, contains), tf.site, got == want, witness={"folded": got, "oracle": want})
+        okd, wit = True, []
+        for name_, filt, strict, invert, want in (("abc", "b", 0, 0, 1), ("b", "abc", 0, 0, 0), ("abc", "abc", 1, 0, 1), ("abc", "ab", 1, 0, 0), ("ab", "abc", 1, 0, 0), ("", "", 0, 0, 1),
+                                                  ("abc", "b", 0, 1, 0), ("abc", "x", 0, 1, 1), ("abc", "abc", 1, 1, 0), ("abc", "ab", 1, 1, 1)):
+            ev = Evaluator(prog, tf, env=dict(filter_state(filt, strict, invert), **{pn: ("str", name_)}), calls=string_hooks())
+            ev.pass_object = True
+            try:
+                ev.run_blocks(tf.entry, max_steps=300)
+                got = getattr(ev, "ret", None)
+            except Unknown as u:
+                got = "unknown: %s" % u
+            wit.append({"name": name_, "filter": filt, "strict": strict, "invert": invert, "folded": got, "expected": want})
+            okd = okd and got == want
+        run.ob("R2", "TestFilter::match folded on strings for filters built by the constructor and modifiers: the candidate is compared with the filter text (the NAME contains the FILTER, not the other way round)", tf.site, okd, witness=wit)
+    except Unknown as u:
+        raise AnalysisBroken("C02.R2: a TestFilter cannot be built by folding its constructor and modifiers: %s" % u)
 
     # ---------------- R3 ----------------------------------------------------
     ARR = "UtestShellPointerArray"
